@@ -68,7 +68,7 @@ theorem child_pub_eq (C : WalletCrypto) (w : HDWallet) (i : Nat) (P Q : Nat × N
   have c1 : ¬ (w.key.length ≠ 33 ∨ i ≥ 2 ^ 32) := by omega
   have c2 : ¬ (i ≥ 2 ^ 31) := by omega
   have c3 : ¬ (i ≥ 2 ^ 32) := by omega
-  simp only [↓reduceIte, hnpriv, hpub, hardenedFrom_eq, c2, deriveNextPublic, hlen, ne_eq, not_true_eq_false, hhead,
+  simp only [↓reduceIte, hnpriv, hpub, hardenedFrom_eq, c2, baseMultiplyAdd, hlen, ne_eq, not_true_eq_false,
     Bool.false_eq_true]
   rw [hk] at hQ ⊢
   simp only [hparse, hQ, serPoint, c3, or_self, ↓reduceIte]
@@ -103,7 +103,7 @@ theorem child_pub_inf (C : WalletCrypto) (w : HDWallet) (i : Nat) (P : Nat × Na
   have c1 : ¬ (w.key.length ≠ 33 ∨ i ≥ 2 ^ 32) := by omega
   have c2 : ¬ (i ≥ 2 ^ 31) := by omega
   have c3 : ¬ (i ≥ 2 ^ 32) := by omega
-  simp only [↓reduceIte, hnpriv, hpub, hardenedFrom_eq, c2, deriveNextPublic, hlen, ne_eq, not_true_eq_false, hhead,
+  simp only [↓reduceIte, hnpriv, hpub, hardenedFrom_eq, c2, baseMultiplyAdd, hlen, ne_eq, not_true_eq_false,
     Bool.false_eq_true]
   rw [hk] at hQ ⊢
   simp only [hparse, hQ, serPoint, c3, or_self, ↓reduceIte]
